@@ -385,8 +385,21 @@ impl ProcfsHandle {
         // NOTE: There is technically a race here, but it relies the target path
         //       being a magic-link and then another thing being mounted on top.
         //       This is the same race as below.
-        if self.readlink(base, subpath).is_err() {
-            return self.open(base, subpath, oflags).map(File::from);
+        //
+        // Only ENOENT (no such path, or readlinkat(2) on something that is not
+        // a symlink) means "not a symlink". Any other failure of the probe
+        // must not be taken as such: with O_PATH the no-follow open below
+        // would hand back the magic-link itself rather than its target. A link
+        // whose body is too long to be read is still a link.
+        match self.readlink(base, subpath) {
+            Ok(_) => (),
+            Err(err) => match err.kind() {
+                ErrorKind::OsError(Some(libc::ENOENT)) => {
+                    return self.open(base, subpath, oflags).map(File::from)
+                }
+                ErrorKind::OsError(Some(libc::ENAMETOOLONG)) => (),
+                _ => return Err(err),
+            },
         }
 
         // Get a no-follow handle to the parent of the magic-link.
